@@ -22,7 +22,7 @@ theorem C01_facts_as_modelled :
                     ("SigningMethodEd25519", "ParseEdPublicKeyFromPEM")] ∧
     keyfuncDefaultErrors = true ∧
     jwtWithIssuedAt = true ∧ jwtWithLeeway = true ∧ jwtLeewayArg = "tokenLeeway" ∧
-    jwtErrorMap = [("ErrTokenNotValidYet|ErrTokenUsedBeforeIssued", "TokenNotValidYet"), ("ErrTokenExpired", "TokenExpired")] ∧
+    jwtErrorMap = [(["ErrTokenNotValidYet", "ErrTokenUsedBeforeIssued"], "TokenNotValidYet"), (["ErrTokenExpired"], "TokenExpired")] ∧
     jwtErrorDefault = "InvalidToken" ∧
     hubTimeRules = [("issuedAt != nil && expiresAt != nil && expiresAt.Before(issuedAt.Time)", "TokenExpired"),
                     ("issuedAt == nil", "TokenNotValidYet"),
@@ -570,5 +570,417 @@ theorem C01_session_needs_credentials_run (cfg : Cfg) (env : Env) (now : Int) :
     intro sid bid k u hs
     obtain ⟨c, m, rfl⟩ := step_hello_reply_is_hello_op cfg env now h op sid bid k u hs
     exact ⟨c, m, rfl, C01_session_needs_credentials cfg env now h c m sid bid k u (hr c m List.mem_cons_self) hs⟩
+
+
+/-! ## 6. A backend URL that is not configured is always refused -/
+
+/-- the URL that names the backend in a hello without resume id -/
+def Hello.backendUrl (m : Hello) : Url := if effType m = HelloClientTypeInternal then m.burl else m.url
+
+/-- If no entry of the configuration names the URL of the request, no session is given —
+whatever the token, the ticket, the secret, the state. (No assumption on web servers.) -/
+theorem C01_unconfigured_backend_refused (cfg : Cfg) (env : Env) (now : Int) (h : Hub) (c : Nat) (m : Hello)
+    (hp : m.resume.present = false) (hu : ¬ Configured cfg m.backendUrl) :
+    ∀ sid bid k u, (step cfg env now h (.hello c m)).2 ≠ .hello sid bid k u := by
+  intro sid bid k u hs
+  simp only [step] at hs
+  split at hs
+  · simp at hs
+  · split at hs
+    · simp at hs
+    · rename_i hvalid
+      split at hs
+      · simp at hs
+      · obtain ⟨_, hshape⟩ := checkValid_none hvalid
+        obtain ⟨hcl, hin⟩ := hshape hp
+        unfold processHello at hs
+        simp only [hp, Bool.false_eq_true, if_false] at hs
+        split at hs
+        · rename_i hty
+          have hni : effType m ≠ HelloClientTypeInternal := by
+            intro hi
+            rw [hi, fact_internal, fact_client, fact_federation] at hty
+            exact absurd hty (by decide)
+          have hnone : getBackend cfg m.url = none := by
+            apply getBackend_none_of_not_configured (hcl hty)
+            simpa [Hello.backendUrl, hni] using hu
+          split at hs
+          · simp [helloV1, hnone] at hs
+          · split at hs
+            · simp [helloV2, hnone] at hs
+            · simp at hs
+        · split at hs
+          · rename_i hty
+            have hnone : getBackend cfg m.burl = none := by
+              apply getBackend_none_of_not_configured (hin hty)
+              simpa [Hello.backendUrl, hty] using hu
+            unfold helloInternal at hs
+            simp only [hnone] at hs
+            split at hs
+            · simp at hs
+            · split at hs
+              · simp at hs
+              · split at hs <;> simp at hs
+          · simp at hs
+
+/-! ## 7. What the algorithm restriction buys: `none`, HMAC and PSS are refused whatever verifies -/
+
+/-- A token whose header names any algorithm outside RS*/ES*/EdDSA — in particular `none`, or
+HS256/384/512 (where the "key" would be the published public key text, under which an
+attacker can compute a valid MAC, so the oracle bit may well be true) — never parses. -/
+theorem C01_alg_none_and_hmac_refused (env : Env) (srv : String) (now : Int) (t : Tok) (a : String)
+    (ha : t.alg = some a) (hn : a ∉ stmtAlgs) : jwtParse env srv now t ≠ none := by
+  intro h
+  obtain ⟨⟨a', ha', hmem⟩, _⟩ := jwtParse_none h
+  rw [ha] at ha'
+  cases ha'
+  exact hn hmem
+
+example : "none" ∉ stmtAlgs ∧ "HS256" ∉ stmtAlgs ∧ "HS384" ∉ stmtAlgs ∧ "HS512" ∉ stmtAlgs ∧ "PS256" ∉ stmtAlgs := by decide
+
+/-- …and within the allowed algorithms the family of the header must be the family of the key the
+backend publishes (an RS256 header cannot be checked against an EC key and so on). -/
+theorem C01_alg_family_matches_key (env : Env) (srv : String) (now : Int) (t : Tok)
+    (h : jwtParse env srv now t = none) :
+    ∃ a kf tn, t.alg = some a ∧ keyFamilyFor a = some kf ∧ env.tenant srv = some tn ∧ tn.key = some kf := by
+  unfold jwtParse at h
+  cases hw : t.wellFormed with
+  | false => simp [hw] at h
+  | true =>
+  simp only [hw, Bool.not_true, Bool.false_eq_true, if_false] at h
+  cases ha : t.alg with
+  | none => simp [ha] at h
+  | some a =>
+  simp only [ha] at h
+  split at h
+  · simp at h
+  · split at h
+    · simp at h
+    · split at h
+      · simp at h
+      · cases hk : keyFamilyFor a with
+        | none => simp [hk] at h
+        | some kf =>
+          simp only [hk] at h
+          split at h
+          · simp at h
+          · rename_i h4
+            simp only [ne_eq, Decidable.not_not] at h4
+            cases ht : env.tenant srv with
+            | none => simp [ht] at h4
+            | some tn =>
+              simp [ht] at h4
+              exact ⟨a, kf, tn, rfl, hk, rfl, h4⟩
+
+example : keyFamilyFor "RS256" = some .rsa ∧ keyFamilyFor "ES384" = some .ecdsa ∧ keyFamilyFor "EdDSA" = some .ed25519 ∧
+    keyFamilyFor "HS256" = none ∧ keyFamilyFor "none" = none ∧ keyFamilyFor "PS256" = none := by decide
+
+/-! ## 8. Why URLs with dot segments have to be refused (the defect repaired in /repo 8b1f8f2)
+
+With the lookup as it was (prefix match on the unnormalised URL, `rejectDots = false`), a URL
+under the configured prefix `/one/` whose dot segments lead to another instance of the host is
+attributed to backend `b1` although the server that answers — and whose key verifies the
+token — is `one2`, which is not configured at all. -/
+
+def exCfg : Cfg :=
+  { hosts := [("cloud.example", [{ id := "b1", url := "https://cloud.example/one/", allowHttp := false, limit := 0, owner := "b1" }])],
+    secretSet := true }
+
+def exDotUrl : Url :=
+  { raw := "https://cloud.example/one/../one2/", ok := true, scheme := "https", host := "cloud.example",
+    hostname := "cloud.example", port := "", strHost := "https://cloud.example/one/../one2/",
+    strHostname := "https://cloud.example/one/../one2/", dotSeg := true, srv := "one2" }
+
+theorem C01_dot_segments_needed :
+    (∃ b, getBackendWith false exCfg exDotUrl = some b ∧ b.id = "b1" ∧ srvOk b exDotUrl.srv = false) ∧
+    getBackendWith true exCfg exDotUrl = none ∧
+    getBackend exCfg exDotUrl = none := by
+  decide +kernel
+
+/-! ## 9. Converse: the model does not reject everything
+
+Credentials that verify, on an open connection without session, below the session limit, are
+answered with a session — so the theorems above are not true by rejection. -/
+
+/-- room for one more session on the backend (`Backend.AddSession`) -/
+def HasRoom (h : Hub) (b : Backend) : Prop := b.limit = 0 ∨ h.count b.id < b.limit
+
+theorem register_ok (h : Hub) (c : Nat) (b : Backend) (kind user : String)
+    (hroom : kind = HelloClientTypeInternal ∨ HasRoom h b) :
+    (register h c b kind user).2 = .hello h.nextSid b.id kind user := by
+  unfold register
+  split
+  · rename_i hc
+    obtain ⟨h1, h2, h3⟩ := hc
+    rcases hroom with hk | hr | hr
+    · exact absurd hk h1
+    · omega
+    · omega
+  · rfl
+
+theorem C01_valid_v2_accepted (cfg : Cfg) (env : Env) (now : Int) (h : Hub) (c : Nat) (m : Hello) (b : Backend)
+    (a : String) (kf : KeyFam) (tn : Tenant) (i e : Int)
+    (ho : h.isOpen c = true) (hs : h.sessionOf c = none)
+    (hv : checkValid m = none) (hp : m.resume.present = false)
+    (hty : effType m = HelloClientTypeClient) (hver : m.version = HelloVersionV2)
+    (hb : getBackend cfg m.url = some b)
+    (hwf : m.tok.wellFormed = true) (halg : m.tok.alg = some a) (hallowed : a ∈ stmtAlgs)
+    (hsig : m.tok.sigDecodes = true) (hfam : keyFamilyFor a = some kf)
+    (hten : env.tenant m.url.srv = some tn) (hkey : tn.key = some kf) (hvf : m.tok.verifies m.url.srv = true)
+    (hiat : m.tok.iat = some i) (hexp : m.tok.exp = some e)
+    (h1 : i ≤ now + stmtLeeway) (h2 : now < e + stmtLeeway) (h3 : i ≤ e)
+    (hnbf : ∀ n, m.tok.nbf = some n → n ≤ now + stmtLeeway)
+    (hroom : HasRoom h b) :
+    (step cfg env now h (.hello c m)).2 = .hello h.nextSid b.id HelloClientTypeClient m.tok.sub := by
+  have hvm : validMethods.contains a = true := by
+    have : validMethods = stmtAlgs := by decide
+    rw [this]; simpa using hallowed
+  have hmt : (jwtMethodType a).isNone = false := by
+    unfold keyFamilyFor at hfam
+    cases hm : jwtMethodType a with
+    | none => simp [hm] at hfam
+    | some _ => rfl
+  have hval : jwtValidate now m.tok = [] := by
+    unfold jwtValidate
+    rw [fact_libLeeway, fact_withIat, hiat, hexp]
+    have e1 : ¬ (now < i - stmtLeeway) := by omega
+    cases hn : m.tok.nbf with
+    | none => simp [Option.any, h2, e1]
+    | some n =>
+      have := hnbf n hn
+      have e2 : ¬ (now < n - stmtLeeway) := by omega
+      simp [Option.any, h2, e1, e2]
+  have hparse : jwtParse env m.url.srv now m.tok = none := by
+    unfold jwtParse
+    have hvm' : a ∈ validMethods := by simpa using hvm
+    simp [hwf, halg, hmt, hvm', hsig, hfam, hten, hkey, hvf, hval]
+  have htime : hubTimeCheck now m.tok = none := by
+    unfold hubTimeCheck
+    rw [fact_leeway, hiat, hexp]
+    have e1 : ¬ (e < i) := by omega
+    have e2 : ¬ (e < now - stmtLeeway) := by omega
+    simp [e1, e2]
+  have hnf : ¬ (HelloClientTypeClient = HelloClientTypeFederation) := by decide
+  have h21 : ¬ (HelloVersionV2 = HelloVersionV1) := by decide
+  simp only [step, ho, hv, hs, processHello, hp, hty, hver, helloV2, hb, hparse, htime]
+  simp only [hnf, h21, Bool.not_true, Bool.false_eq_true, if_false, true_or, if_true, false_and]
+  exact register_ok h c b HelloClientTypeClient m.tok.sub (Or.inr hroom)
+
+theorem C01_valid_internal_accepted (cfg : Cfg) (env : Env) (now : Int) (h : Hub) (c : Nat) (m : Hello) (b : Backend)
+    (ho : h.isOpen c = true) (hs : h.sessionOf c = none)
+    (hv : checkValid m = none) (hp : m.resume.present = false)
+    (hty : effType m = HelloClientTypeInternal)
+    (hsec : cfg.secretSet = true) (hnb : (Throttle.check h.thr now (h.tkey c) "HelloInternal").2 = false)
+    (hrnd : stmtMinRandom ≤ m.rnd.utf8ByteSize) (htok : m.tokenOk = true)
+    (hb : getBackend cfg m.burl = some b) :
+    (step cfg env now h (.hello c m)).2 = .hello h.nextSid b.id HelloClientTypeInternal "" := by
+  have hni : ¬ (HelloClientTypeInternal = HelloClientTypeClient ∨ HelloClientTypeInternal = HelloClientTypeFederation) := by decide
+  have hr : ¬ (m.rnd.utf8ByteSize < minTokenRandomLength) := by rw [fact_minRandom]; omega
+  simp only [step, ho, hv, hs, processHello, hp, hty, helloInternal, hsec, hnb, htok, hb]
+  simp [hni, hr]
+  exact register_ok _ c b HelloClientTypeInternal "" (Or.inl rfl)
+
+theorem C01_valid_resume_accepted (cfg : Cfg) (env : Env) (now : Int) (h : Hub) (c : Nat) (m : Hello) (s : Sess)
+    (ho : h.isOpen c = true) (hs : h.sessionOf c = none)
+    (hv : checkValid m = none) (hp : m.resume.present = true)
+    (hnb : (Throttle.check h.thr now (h.tkey c) "HelloResume").2 = false)
+    (hdec : m.resume.decodes = true) (hex : m.resume.exact = some s.sid)
+    (hfind : h.sessions.find? (fun x => x.sid = s.sid) = some s) :
+    (step cfg env now h (.hello c m)).2 = .hello s.sid s.backend s.kind s.user := by
+  simp only [step, ho, hv, hs, processHello, hp, helloResume, hnb, hdec, hex, Option.bind_some, hfind]
+  simp
+
+/-! ## 10. The judge evaluates the spec
+
+`validCredsB` (what the driver computes on the implementation's replies) is `ValidCreds`. -/
+
+theorem namesB_iff (cfg : Cfg) (u : Url) (b : Backend) : namesB cfg u b = true ↔ Names cfg u b := by
+  unfold namesB Names
+  simp only [Bool.and_eq_true, Bool.or_eq_true, List.any_eq_true, decide_eq_true_eq, List.contains_iff_mem]
+  constructor
+  · rintro ⟨hok, h⟩
+    refine ⟨hok, ?_⟩
+    rcases h with ⟨he, hmem, ⟨⟨⟨hh, hb⟩, ha⟩, hp⟩⟩ | h
+    · left
+      obtain ⟨host, entries⟩ := he
+      simp only at hh hb ha hp
+      subst hh
+      exact ⟨entries, hmem, hb, ha, hp⟩
+    · exact Or.inr h
+  · rintro ⟨hok, h⟩
+    refine ⟨hok, ?_⟩
+    rcases h with ⟨entries, hmem, hb, ha, hp⟩ | h
+    · left
+      exact ⟨(u.norm.1, entries), hmem, ⟨⟨⟨rfl, hb⟩, ha⟩, hp⟩⟩
+    · exact Or.inr h
+
+theorem names_mem_all {cfg : Cfg} {u : Url} {b : Backend} (h : Names cfg u b) : b ∈ allBackends cfg := by
+  unfold allBackends
+  rcases h.2 with ⟨entries, hmem, hb, _, _⟩ | h
+  · apply List.mem_append_left
+    exact List.mem_flatMap.mpr ⟨_, hmem, hb⟩
+  · apply List.mem_append_right
+    simp [h]
+
+theorem anyNames_iff (cfg : Cfg) (u : Url) (p : Backend → Bool) :
+    (allBackends cfg).any (fun b => namesB cfg u b && p b) = true ↔ ∃ b, Names cfg u b ∧ p b = true := by
+  simp only [List.any_eq_true, Bool.and_eq_true]
+  constructor
+  · rintro ⟨b, _, hn, hp⟩
+    exact ⟨b, (namesB_iff cfg u b).mp hn, hp⟩
+  · rintro ⟨b, hn, hp⟩
+    exact ⟨b, names_mem_all hn, (namesB_iff cfg u b).mpr hn, hp⟩
+
+theorem timeValidB_iff (now : Int) (t : Tok) : timeValidB now t = true ↔ TimeValid now t := by
+  unfold timeValidB TimeValid
+  cases hi : t.iat <;> cases he : t.exp <;> cases hn : t.nbf <;> simp [and_assoc]
+
+theorem validV1B_iff (cfg : Cfg) (m : Hello) (bid : String) : validV1B cfg m bid = true ↔ ValidV1 cfg m bid := by
+  unfold validV1B ValidV1
+  have := anyNames_iff cfg m.url (fun b => decide (b.id = bid) && srvOk b m.url.srv)
+  simp only [Bool.and_assoc] at this ⊢
+  rw [Bool.and_eq_true, this]
+  constructor
+  · rintro ⟨⟨b, hn, hp⟩, ha⟩
+    simp only [Bool.and_eq_true, decide_eq_true_eq] at hp
+    refine ⟨b, hn, hp.1, hp.2, ?_⟩
+    cases hv : m.v1ans with
+    | auth u => exact ⟨u, rfl⟩
+    | error c => simp [hv] at ha
+    | other => simp [hv] at ha
+    | fail => simp [hv] at ha
+  · rintro ⟨b, hn, hid, hs, u, hu⟩
+    exact ⟨⟨b, hn, by simp [hid, hs]⟩, by simp [hu]⟩
+
+theorem validV2B_iff (cfg : Cfg) (env : Env) (now : Int) (m : Hello) (bid : String) :
+    validV2B cfg env now m bid = true ↔ ValidV2 cfg env now m bid := by
+  unfold validV2B ValidV2
+  have := anyNames_iff cfg m.url (fun b => decide (b.id = bid) && srvOk b m.url.srv)
+  simp only [Bool.and_assoc] at this ⊢
+  simp only [Bool.and_eq_true, this, timeValidB_iff]
+  constructor
+  · rintro ⟨⟨b, hn, hp⟩, ha, hk, hv, ht⟩
+    simp only [Bool.and_eq_true, decide_eq_true_eq] at hp
+    refine ⟨b, hn, hp.1, hp.2, ?_, ?_, hv, ht⟩
+    · cases hal : m.tok.alg with
+      | none => simp [hal] at ha
+      | some a => exact ⟨a, rfl, by simpa [hal] using ha⟩
+    · cases hte : env.tenant m.url.srv with
+      | none => simp [hte] at hk
+      | some t => exact ⟨t, rfl, by simpa [hte] using hk⟩
+  · rintro ⟨b, hn, hid, hs, ⟨a, hal, hmem⟩, ⟨t, hte, hk⟩, hv, ht⟩
+    exact ⟨⟨b, hn, by simp [hid, hs]⟩, by simp [hal, hmem], by simp [hte, hk], hv, ht⟩
+
+theorem validInternalB_iff (cfg : Cfg) (m : Hello) (bid : String) :
+    validInternalB cfg m bid = true ↔ ValidInternal cfg m bid := by
+  unfold validInternalB ValidInternal
+  have := anyNames_iff cfg m.burl (fun b => decide (b.id = bid))
+  simp only [Bool.and_eq_true, this, decide_eq_true_eq]
+  constructor
+  · rintro ⟨⟨⟨h1, h2⟩, h3⟩, b, hn, hid⟩
+    exact ⟨h1, h2, h3, b, hn, hid⟩
+  · rintro ⟨h1, h2, h3, b, hn, hid⟩
+    exact ⟨⟨⟨h1, h2⟩, h3⟩, b, hn, hid⟩
+
+theorem validResumeB_iff (live : List (Nat × String)) (m : Hello) (sid : Nat) (bid : String) :
+    validResumeB live m sid bid = true ↔ ValidResume live m sid bid := by
+  unfold validResumeB ValidResume
+  simp
+
+theorem clientishB_iff (m : Hello) : clientishB m = true ↔ clientish m := by
+  unfold clientishB clientish
+  simp [or_assoc]
+
+/-- **The judge is the spec.** -/
+theorem judge_sound (cfg : Cfg) (env : Env) (now : Int) (live : List (Nat × String)) (m : Hello) (sid : Nat) (bid : String) :
+    validCredsB cfg env now live m sid bid = true ↔ ValidCreds cfg env now live m sid bid := by
+  unfold validCredsB ValidCreds
+  simp only [Bool.or_eq_true, Bool.and_eq_true, Bool.not_eq_true', decide_eq_true_eq, validV1B_iff, validV2B_iff,
+    validInternalB_iff, validResumeB_iff, clientishB_iff, and_assoc, or_assoc]
+
+/-! ## 11. Non-vacuity: concrete instances -/
+
+def exEnv : Env := { tenants := [{ name := "b1", key := some .rsa, fed := false }, { name := "one2", key := some .ecdsa, fed := true }] }
+def exHub : Hub := { conns := [(1, "198.51.100.7")] }
+def exUrl : Url :=
+  { raw := "https://cloud.example/one/", ok := true, scheme := "https", host := "cloud.example", hostname := "cloud.example",
+    port := "", strHost := "https://cloud.example/one/", strHostname := "https://cloud.example/one/", dotSeg := false, srv := "b1" }
+def exTok : Tok :=
+  { alg := some "RS256", iat := some (-5000000000), exp := some 300000000000, sub := "alice", verifies := fun n => n == "b1" }
+def exHello : Hello :=
+  { version := "2.0", hasAuth := true, hasParams := true, authType := "client", url := exUrl, paramsOk := true, tok := exTok }
+
+/-- a hello that is accepted: the hypotheses of `C01_session_needs_credentials` (and of
+`C01_valid_v2_accepted`) are met by a concrete, ordinary case -/
+example : (step exCfg exEnv 0 exHub (.hello 1 exHello)).2 = .hello 1 "b1" "client" "alice" := by decide +kernel
+
+example : RoutedByPrefix exCfg exUrl := by
+  intro _ b hn
+  rcases hn.2 with ⟨entries, hmem, hb, _, _⟩ | h
+  · simp only [exCfg, List.mem_singleton, Prod.mk.injEq] at hmem
+    rw [hmem.2] at hb
+    simp only [List.mem_singleton] at hb
+    subst hb
+    decide
+  · simp [exCfg] at h
+
+/-- the same token with `alg: none`, or re-signed as HS256 with the published key text (so that
+"it verifies" under every tenant), or on the leeway boundary, or through a dot-segment URL -/
+example : (step exCfg exEnv 0 exHub (.hello 1 { exHello with tok := { exTok with alg := some "none", verifies := fun _ => true } })).2
+    = .error "invalid_token" := by decide +kernel
+example : (step exCfg exEnv 0 exHub (.hello 1 { exHello with tok := { exTok with alg := some "HS256", verifies := fun _ => true } })).2
+    = .error "invalid_token" := by decide +kernel
+example : (step exCfg exEnv 0 exHub (.hello 1 { exHello with tok := { exTok with alg := some "ES256" } })).2
+    = .error "invalid_token" := by decide +kernel
+example : (step exCfg exEnv 0 exHub (.hello 1 { exHello with tok := { exTok with exp := some (-60000000000) } })).2
+    = .error "token_expired" := by decide +kernel
+example : (step exCfg exEnv 0 exHub (.hello 1 { exHello with tok := { exTok with iat := some (-70000000000), exp := some (-59000000000) } })).2
+    = .hello 1 "b1" "client" "alice" := by decide +kernel
+example : (step exCfg exEnv 0 exHub (.hello 1 { exHello with tok := { exTok with iat := some 60000000000 } })).2
+    = .hello 1 "b1" "client" "alice" := by decide +kernel
+example : (step exCfg exEnv 0 exHub (.hello 1 { exHello with tok := { exTok with iat := some 61000000000 } })).2
+    = .error "token_not_valid_yet" := by decide +kernel
+example : (step exCfg exEnv 0 exHub (.hello 1 { exHello with tok := { exTok with iat := none } })).2
+    = .error "token_not_valid_yet" := by decide +kernel
+example : (step exCfg exEnv 0 exHub (.hello 1 { exHello with url := exDotUrl, tok := { exTok with alg := some "ES256", verifies := fun n => n == "one2" } })).2
+    = .error "invalid_backend" := by decide +kernel
+
+/-- frames before hello: the hypotheses of `C01_nothing_before_hello_seq` hold for a sequence of
+all kinds of frames on the open, session-less connection 1 -/
+example : ∀ op ∈ [Op.msg 1 "room" .valid, .msg 1 "" .invalid, .bye 1, .msg 1 "hello" .invalid, .msg 1 "?" .undecodable,
+    .msg 1 "internal" .valid], PreHello exHub op := by
+  intro op hop
+  simp only [List.mem_cons, List.mem_nil_iff, or_false] at hop
+  rcases hop with rfl | rfl | rfl | rfl | rfl | rfl <;> (simp only [PreHello]; decide)
+
+/-- an unconfigured URL: same host, other prefix -/
+def exOtherPrefixUrl : Url :=
+  { exUrl with
+    raw := "https://cloud.example/one2/", strHost := "https://cloud.example/one2/",
+    strHostname := "https://cloud.example/one2/", srv := "one2" }
+
+example : ¬ Configured exCfg exOtherPrefixUrl := by
+  rintro ⟨b, hn⟩
+  have := (namesB_iff _ _ _).mpr hn
+  have hb := names_mem_all hn
+  simp only [allBackends, exCfg, List.flatMap_cons, List.flatMap_nil, Option.toList, List.append_nil, List.mem_singleton] at hb
+  subst hb
+  revert this
+  decide +kernel
+
+/-- an internal hello and a resume that are accepted -/
+def exInternal (rnd : String) : Hello :=
+  { version := "1.0", hasAuth := true, hasParams := true, authType := "internal", paramsOk := true, rnd := rnd, tokenOk := true, burl := exUrl }
+
+example : (step exCfg exEnv 0 exHub (.hello 1 (exInternal "0123456789abcdef0123456789abcdef"))).2 = .hello 1 "b1" "internal" "" := by
+  decide +kernel
+example : (step exCfg exEnv 0 { exHub with sessions := [{ sid := 7, backend := "b1", kind := "client", user := "bob", conn := none }] }
+    (.hello 1 { version := "2.0", resume := { present := true, exact := some 7, decodes := true } })).2
+    = .hello 7 "b1" "client" "bob" := by decide +kernel
+/-- …31 bytes of random, or no secret configured: refused -/
+example : (step exCfg exEnv 0 exHub (.hello 1 (exInternal "0123456789abcdef0123456789abcde"))).2 = .error "invalid_token" := by
+  decide +kernel
+example : (step { exCfg with secretSet := false } exEnv 0 exHub (.hello 1 (exInternal "0123456789abcdef0123456789abcdef"))).2
+    = .error "invalid_client_type" := by decide +kernel
 
 end SigModel.Auth
